@@ -499,6 +499,7 @@ func runRegressionReplays(id string) []map[string]interface{} {
 	var idx []struct {
 		Property, File, Pkg, What string
 		Tests                     []string
+		Bounded                   bool
 	}
 	if json.Unmarshal(raw, &idx) != nil {
 		return nil
@@ -509,6 +510,9 @@ func runRegressionReplays(id string) []map[string]interface{} {
 			continue
 		}
 		res := map[string]interface{}{"file": filepath.Join(verifDir(), "replay", e.File), "package": e.Pkg, "tests": e.Tests, "what": e.What}
+		if e.Bounded {
+			res["bounded"] = true // a bounded stand-in: never counted as proved
+		}
 		dir, err := os.MkdirTemp("", "gocv-replay")
 		if err != nil {
 			res["result"], res["detail"] = "error", err.Error()
@@ -519,7 +523,7 @@ func runRegressionReplays(id string) []map[string]interface{} {
 		ov, _ := json.Marshal(map[string]interface{}{"Replace": map[string]string{target: filepath.Join(verifDir(), "replay", e.File)}})
 		ovFile := filepath.Join(dir, "overlay.json")
 		_ = os.WriteFile(ovFile, ov, 0o644)
-		cmd := exec.Command("go", "test", "-overlay", ovFile, "-vet=off", "-count=1", "-timeout", "600s", "-run", "^("+strings.Join(e.Tests, "|")+")$", e.Pkg)
+		cmd := exec.Command("go", "test", "-overlay", ovFile, "-vet=off", "-count=1", "-v", "-timeout", "3000s", "-run", "^("+strings.Join(e.Tests, "|")+")$", e.Pkg)
 		cmd.Dir = repoDir()
 		cmd.Env = append(os.Environ(), "GOFLAGS=-mod=mod", "GOPROXY=off", "GOSUMDB=off", "GOTOOLCHAIN=local")
 		outB, runErr := cmd.CombinedOutput()
@@ -529,6 +533,11 @@ func runRegressionReplays(id string) []map[string]interface{} {
 		for _, ln := range strings.Split(txt, "\n") {
 			if strings.HasPrefix(ln, "--- FAIL: ") {
 				failed = append(failed, strings.Fields(strings.TrimPrefix(ln, "--- FAIL: "))[0])
+			}
+		}
+		for _, ln := range strings.Split(txt, "\n") {
+			if i := strings.Index(ln, "BOUNDED: "); i >= 0 && strings.Contains(ln, " cases") {
+				res["bounded_summary"] = strings.TrimSpace(ln[i:])
 			}
 		}
 		switch {
